@@ -113,7 +113,7 @@ Qed.
 Lemma Inv_init n m : Inv n (init okc n m).
 Proof.
   exists 0, 0. split.
-  - split; [reflexivity|]. left. repeat split; [lia|reflexivity].
+  - split; [reflexivity|]. left. repeat split; lia.
   - cbn [init g_subs]. apply Forall_forall. intros x Hx. apply repeat_spec in Hx. subst x.
     left. repeat split.
 Qed.
@@ -166,7 +166,7 @@ Proof.
   unfold attached in Ha. apply Nat.leb_le in Ha.
   destruct HS as [(Hpc & _)|[(Hpc & _)|(Hpc & q & h & Hq & Hh & Hl & Hs & Ho)]]; [lia|lia|].
   exists (Nat.max h p). unfold delivered, do_drain. rewrite Hl, Hs. cbn [okc code_cfg c_f s_out].
-  rewrite Ho. split; [apply drain_seq; exact Hq|]. rewrite Hpub. repeat split; try lia.
+  rewrite Ho. split; [apply drain_seq; exact Hq|]. rewrite Hpub. split; [lia|]. split; [lia|].
   intros E. specialize (Hend E). lia.
 Qed.
 
@@ -198,9 +198,6 @@ Proof.
 Qed.
 
 (* ---------- bounded channel: lag ---------- *)
-Definition with_cap (c : cfg) (cap : option nat) : cfg :=
-  {| c_p := c_p c; c_s := c_s c; c_f := c_f c; c_cap := cap |}.
-Definition any_lag (s : st) : bool := existsb s_lag (g_subs s).
 
 Lemma sub_step_lag c h x : s_lag (sub_step c h x) = s_lag x.
 Proof.
@@ -245,20 +242,23 @@ Lemma step_cap_eq c cap s a :
   any_lag (step (with_cap c (Some cap)) s a) = false -> step (with_cap c (Some cap)) s a = step (with_cap c None) s a.
 Proof.
   destruct a as [|i]; cbn [step]; [|reflexivity].
-  destruct (g_prog s) as [|[k|k] r]; try reflexivity. unfold any_lag. cbn [g_subs with_cap c_cap]. intros H.
+  destruct (g_prog s) as [|[k|k] r]; try reflexivity. unfold any_lag. cbn [g_subs with_cap mk c_cap]. intros H.
   f_equal. apply map_ext_in. intros x Hx. apply deliver_cap_eq.
   destruct (s_lag (deliver (Some cap) k x)) eqn:E; [|reflexivity].
   exfalso. assert (existsb s_lag (map (deliver (Some cap) k) (g_subs s)) = true) as Hc.
   { apply existsb_exists. exists (deliver (Some cap) k x). split; [apply in_map, Hx|exact E]. }
-  rewrite Hc in H. discriminate.
+  change (c_cap (with_cap c (Some cap))) with (Some cap) in H. rewrite Hc in H. discriminate.
 Qed.
+
+Lemma run_cons c a l s : run c (a :: l) s = run c l (step c s a).
+Proof. reflexivity. Qed.
 
 (* a run in which no receiver overflowed is a run of the unbounded model *)
 Theorem nolag_run_eq c cap sched : forall s,
   any_lag (run (with_cap c (Some cap)) sched s) = false ->
   run (with_cap c (Some cap)) sched s = run (with_cap c None) sched s.
 Proof.
-  induction sched as [|a l IH]; intros s H; [reflexivity|]. cbn [run fold_left] in *.
+  induction sched as [|a l IH]; intros s H; [reflexivity|]. rewrite !run_cons in *.
   assert (any_lag (step (with_cap c (Some cap)) s a) = false) as Hs.
   { destruct (any_lag (step (with_cap c (Some cap)) s a)) eqn:E; [|reflexivity].
     rewrite (any_lag_run _ l _ E) in H. discriminate. }
@@ -271,22 +271,28 @@ Definition LInv (n : nat) (s : st) : Prop :=
   Forall (fun x => s_lag x = false /\
                    match s_live x with Some q => length q + count_pub (g_prog s) <= n | None => True end) (g_subs s).
 
+Lemma sub_step_len c h x k n :
+  match s_live x with Some q => length q + k <= n | None => True end -> k <= n ->
+  match s_live (sub_step c h x) with Some q => length q + k <= n | None => True end.
+Proof.
+  intros Hq Hk. unfold sub_step.
+  destruct (s_pc x) as [|[|j]], (c_s c); cbn [do_subscribe do_snapshot s_live length]; try exact Hq; try lia.
+  all: unfold do_drain; destruct (s_live x) as [q|] eqn:El; [|rewrite El; exact I];
+    destruct (s_hist x); [cbn [s_live length]; lia|rewrite El; exact Hq].
+Qed.
+
 Lemma LInv_step c cap n s a : n <= cap -> c_cap c = Some cap -> LInv n s -> LInv n (step c s a).
 Proof.
   intros Hn Hc (Hp & HS). destruct a as [|i]; cbn [step].
   - destruct (g_prog s) as [|[k|k] r] eqn:E; [split; [rewrite E; exact Hp|rewrite E; exact HS] | |].
     + cbn [count_pub] in *. split; [cbn [g_prog]; lia|]. cbn [g_prog g_subs]. apply Forall_map.
-      eapply Forall_impl; [|exact HS]. intros x (Hl & Hq). unfold deliver. destruct (s_live x) as [q|].
+      eapply Forall_impl; [|exact HS]. intros x (Hl & Hq). unfold deliver. destruct (s_live x) as [q|] eqn:El.
       * rewrite Hc. cbn [push_live]. destruct (Nat.ltb_spec (length q) cap) as [Hlt|Hge]; [|lia].
         cbn [s_lag s_live]. rewrite Hl. split; [reflexivity|]. rewrite app_length. cbn [length]. lia.
-      * split; [exact Hl|]. destruct (s_live x); exact I || exact I.
+      * split; [exact Hl|]. rewrite El. exact I.
     + cbn [count_pub g_prog g_subs] in *. split; [exact Hp|exact HS].
   - cbn [g_prog g_subs]. split; [exact Hp|]. apply Forall_upd_nth; [|exact HS].
-    intros x (Hl & Hq). rewrite sub_step_lag. split; [exact Hl|].
-    unfold sub_step. destruct (s_pc x) as [|[|k]], (c_s c); cbn [do_subscribe do_snapshot s_live length];
-      try exact Hq; try lia.
-    all: unfold do_drain; destruct (s_live x) as [q|] eqn:El; [|rewrite El; exact I];
-      destruct (s_hist x); [cbn [s_live length]; lia|rewrite El; exact Hq].
+    intros x (Hl & Hq). rewrite sub_step_lag. split; [exact Hl|]. apply sub_step_len; assumption.
 Qed.
 
 Lemma LInv_init c n m : LInv n (init c n m).
@@ -306,7 +312,7 @@ Theorem lag_bound : forall (c : cfg) (cap n m : nat) (sched : list actor),
   n <= cap -> any_lag (run (with_cap c (Some cap)) sched (init (with_cap c (Some cap)) n m)) = false.
 Proof.
   intros c cap n m sched Hn.
-  destruct (LInv_run (with_cap c (Some cap)) cap n sched Hn eq_refl _ (LInv_init _ n m)) as (_ & HS).
+  destruct (LInv_run (with_cap c (Some cap)) cap n sched Hn eq_refl _ (LInv_init (with_cap c (Some cap)) n m)) as (_ & HS).
   unfold any_lag. destruct (existsb s_lag _) eqn:E; [|reflexivity].
   apply existsb_exists in E. destruct E as (x & Hx & Hl). rewrite Forall_forall in HS.
   destruct (HS x Hx) as (Hf & _). congruence.
@@ -348,35 +354,45 @@ Proof.
 Qed.
 
 (* ---------- every hypothesis is necessary: executable witnesses ---------- *)
-Definition mk (p : porder) (s : sorder) (f : lfilter) (cap : option nat) : cfg :=
-  {| c_p := p; c_s := s; c_f := f; c_cap := cap |}.
-
-Definition loses (c : cfg) (n : nat) (sched : list actor) : Prop :=
-  let fin := run c sched (init c n 1) in
-  g_prog fin = [] /\ exists x, nth_error (g_subs fin) 0 = Some x /\ attached x = true /\ delivered c x <> seq 0 n.
-
 (* S8: send(0) < subscribe < snapshot < push(0): frame 0 is in neither history nor live *)
-Lemma pub_then_rec_refuted : exists n sched, loses (mk PubThenRec SubThenSnap FilterGtLast None) n sched
-  /\ sched = [AP; AS 0; AS 0; AP].
+Definition s8_sched : list actor := [AP; AS 0; AS 0; AP].
+Lemma pub_then_rec_refuted : exists n sched, Loses unfixed_cfg n sched.
 Proof.
-  exists 1, [AP; AS 0; AS 0; AP]. split; [|reflexivity]. split; [reflexivity|].
+  exists 1, s8_sched. split; [reflexivity|].
   eexists. split; [vm_compute; reflexivity|]. split; [reflexivity|]. vm_compute. discriminate.
 Qed.
+(* the same witness, spelled out: the subscriber of the 1-frame stream receives nothing *)
+Lemma s8_witness : map (delivered unfixed_cfg) (g_subs (final unfixed_cfg 1 1 s8_sched)) = [[]]
+  /\ g_prog (final unfixed_cfg 1 1 s8_sched) = [] /\ g_hist (final unfixed_cfg 1 1 s8_sched) = [0].
+Proof. vm_compute. repeat split. Qed.
 
-Lemma snap_then_sub_refuted : exists n sched, loses (mk RecThenPub SnapThenSub FilterGtLast None) n sched.
+(* ... and in a longer stream ANY frame k can be the lost one (attach inside the window of frame k) *)
+Definition s8_sched_at (k : nat) : list actor := repeat AP (2 * k) ++ [AP; AS 0; AS 0].
+Lemma s8_any_frame_examples :
+  map (fun k => map (delivered unfixed_cfg) (g_subs (final unfixed_cfg 4 1 (s8_sched_at k ++ repeat AP 8)))) [0; 1; 2; 3]
+  = [[[1; 2; 3]]; [[0; 2; 3]]; [[0; 1; 3]]; [[0; 1; 2]]].
+Proof. vm_compute. reflexivity. Qed.
+
+Lemma snap_then_sub_refuted : exists n sched, Loses (mk RecThenPub SnapThenSub FilterGtLast None) n sched.
 Proof.
   exists 1, [AS 0; AP; AP; AS 0]. split; [reflexivity|].
   eexists. split; [vm_compute; reflexivity|]. split; [reflexivity|]. vm_compute. discriminate.
 Qed.
 
-Lemma no_filter_refuted : forall f, f <> FilterGtLast ->
-  exists n sched, loses (mk RecThenPub SubThenSnap f None) n sched.
+(* with `>=` frame `last` comes twice, with no filter every frame recorded between subscribe and snapshot does *)
+Lemma wrong_filter_refuted : forall f, f <> FilterGtLast ->
+  exists n sched, Loses (mk RecThenPub SubThenSnap f None) n sched.
 Proof.
   intros f Hf. exists 1, [AS 0; AP; AP; AS 0]. split; [reflexivity|].
   destruct f; [congruence| |]; (eexists; split; [vm_compute; reflexivity|]; split; [reflexivity|]; vm_compute; discriminate).
 Qed.
+Lemma ge_filter_duplicates :
+  map (delivered (mk RecThenPub SubThenSnap FilterGeLast None))
+      (g_subs (final (mk RecThenPub SubThenSnap FilterGeLast None) 1 1 [AS 0; AP; AP; AS 0])) = [[0; 0]].
+Proof. vm_compute. reflexivity. Qed.
 
-Lemma lag_refuted : exists n sched, loses (mk RecThenPub SubThenSnap FilterGtLast (Some 1)) n sched.
+(* NoLag is necessary: capacity 1, two frames published before the receiver is read *)
+Lemma lag_refuted : exists n sched, Loses (mk RecThenPub SubThenSnap FilterGtLast (Some 1)) n sched.
 Proof.
   exists 2, [AS 0; AS 0; AP; AP; AP; AP]. split; [reflexivity|].
   eexists. split; [vm_compute; reflexivity|]. split; [reflexivity|]. vm_compute. discriminate.
@@ -385,16 +401,89 @@ Qed.
 (* ---------- non-vacuity ---------- *)
 Definition demo_sched : list actor := [AP; AS 0; AP; AS 1; AP; AS 0; AS 1; AP; AS 0; AP; AP; AS 2; AS 2].
 Lemma demo_run :
-  let fin := run okc demo_sched (init okc 3 3) in
-  g_prog fin = [] /\ map (delivered okc) (g_subs fin) = [[0; 1; 2]; [0; 1; 2]; [0; 1; 2]]
-  /\ map attached (g_subs fin) = [true; true; true].
+  g_prog (final okc 3 3 demo_sched) = []
+  /\ map (delivered okc) (g_subs (final okc 3 3 demo_sched)) = [[0; 1; 2]; [0; 1; 2]; [0; 1; 2]]
+  /\ map attached (g_subs (final okc 3 3 demo_sched)) = [true; true; true].
+Proof. vm_compute. repeat split. Qed.
+(* mid-run: subscriber 0 attached inside the run, subscriber 2 not attached yet *)
+Lemma demo_mid_run :
+  g_prog (final okc 3 3 (firstn 7 demo_sched)) <> []
+  /\ map attached (g_subs (final okc 3 3 (firstn 7 demo_sched))) = [true; true; false]
+  /\ map (delivered okc) (g_subs (final okc 3 3 (firstn 7 demo_sched))) = [[0; 1]; [0; 1]; []].
+Proof. vm_compute. repeat split. discriminate. Qed.
+Lemma demo_nolag :
+  NoLag (final (code_cfg (Some 3)) 3 3 demo_sched)
+  /\ map attached (g_subs (final (code_cfg (Some 3)) 3 3 demo_sched)) = [true; true; true].
 Proof. vm_compute. repeat split. Qed.
 
-(* the generated stream kinds (Gen/StreamOrder.v) feed the theorem through wf_kind *)
-Theorem exactly_once_kind : forall (k : kind_orders), wf_kind k = true ->
+(* ---------- the statements of Props/C06.v ---------- *)
+Lemma cfg_ok_of c : c_p c = RecThenPub -> c_s c = SubThenSnap -> c_f c = FilterGtLast -> cfg_ok c = true.
+Proof. unfold cfg_ok. intros -> -> ->. reflexivity. Qed.
+
+Lemma with_cap_same c cap : c_cap c = cap -> with_cap c cap = c.
+Proof. destruct c; cbn. intros ->. reflexivity. Qed.
+
+Theorem exactly_once_thm : forall (c : cfg),
+  c_p c = RecThenPub -> c_s c = SubThenSnap -> c_f c = FilterGtLast -> c_cap c = None ->
   forall (n m : nat) (sched : list actor) (i : nat) (x : sub),
-  let c := kind_cfg k None in
-  let fin := run c sched (init c n m) in
-  nth_error (g_subs fin) i = Some x -> attached x = true ->
-  exists j, delivered c x = seq 0 j /\ published n fin <= j /\ j <= n /\ (g_prog fin = [] -> j = n).
-Proof. intros k Hk. apply exactly_once; [exact Hk|reflexivity]. Qed.
+  nth_error (g_subs (final c n m sched)) i = Some x -> attached x = true ->
+  ExactlyOnce c n (final c n m sched) x.
+Proof.
+  intros c H1 H2 H3 H4 n m sched i x. exact (exactly_once c (cfg_ok_of c H1 H2 H3) H4 n m sched i x).
+Qed.
+
+Theorem exactly_once_nolag_thm : forall (c : cfg) (cap : nat),
+  c_p c = RecThenPub -> c_s c = SubThenSnap -> c_f c = FilterGtLast -> c_cap c = Some cap ->
+  forall (n m : nat) (sched : list actor) (i : nat) (x : sub),
+  NoLag (final c n m sched) ->
+  nth_error (g_subs (final c n m sched)) i = Some x -> attached x = true ->
+  ExactlyOnce c n (final c n m sched) x.
+Proof.
+  intros c cap H1 H2 H3 H4 n m sched i x. rewrite <- (with_cap_same c (Some cap) H4).
+  exact (exactly_once_bounded c cap (cfg_ok_of c H1 H2 H3) n m sched i x).
+Qed.
+
+Theorem lag_bound_thm : forall (c : cfg) (cap n m : nat) (sched : list actor),
+  c_cap c = Some cap -> n <= cap -> NoLag (final c n m sched).
+Proof.
+  intros c cap n m sched H4 Hn. rewrite <- (with_cap_same c (Some cap) H4). exact (lag_bound c cap n m sched Hn).
+Qed.
+
+Theorem body_is_prefix_thm : forall (c : cfg),
+  c_p c = RecThenPub -> c_s c = SubThenSnap -> c_f c = FilterGtLast -> c_cap c = None ->
+  forall (n m : nat) (sched : list actor) (i : nat) (x : sub),
+  nth_error (g_subs (final c n m sched)) i = Some x -> exists k, s_out x = seq 0 k /\ k <= n.
+Proof.
+  intros c H1 H2 H3 H4. rewrite (cfg_ok_eq c (cfg_ok_of c H1 H2 H3) H4). exact out_is_prefix.
+Qed.
+
+(* the generated stream kinds (Gen/StreamOrder.v) feed the theorems through wf_kinds *)
+Lemma wf_kinds_in l k : wf_kinds l = true -> In k l -> cfg_ok (kind_cfg k None) = true.
+Proof.
+  unfold wf_kinds. intros H Hin. apply andb_prop in H. destruct H as (H & _). apply andb_prop in H.
+  destruct H as (_ & H). rewrite forallb_forall in H. specialize (H k Hin). unfold wf_kind in H.
+  apply andb_prop in H. exact (proj1 H).
+Qed.
+
+Theorem exactly_once_kinds : forall (l : list kind_orders), wf_kinds l = true ->
+  forall (k : kind_orders), In k l ->
+  forall (n m : nat) (sched : list actor) (i : nat) (x : sub),
+  NoLag (final (kind_code_cfg k) n m sched) ->
+  nth_error (g_subs (final (kind_code_cfg k) n m sched)) i = Some x -> attached x = true ->
+  ExactlyOnce (kind_code_cfg k) n (final (kind_code_cfg k) n m sched) x.
+Proof.
+  intros l Hl k Hk. exact (exactly_once_bounded (kind_cfg k None) (kind_cap k) (wf_kinds_in l k Hl Hk)).
+Qed.
+
+Theorem short_stream_kinds : forall (l : list kind_orders), wf_kinds l = true ->
+  forall (k : kind_orders), In k l ->
+  forall (n m : nat) (sched : list actor) (i : nat) (x : sub), n <= kind_cap k ->
+  nth_error (g_subs (final (kind_code_cfg k) n m sched)) i = Some x -> attached x = true ->
+  ExactlyOnce (kind_code_cfg k) n (final (kind_code_cfg k) n m sched) x.
+Proof.
+  intros l Hl k Hk n m sched i x Hn.
+  exact (exactly_once_small (kind_cfg k None) (kind_cap k) (wf_kinds_in l k Hl Hk) n m sched i x Hn).
+Qed.
+
+Lemma wf_kinds_names l : wf_kinds l = true -> map k_name l = [0%N; 1%N; 2%N].
+Proof. unfold wf_kinds. intros H. apply andb_prop in H. apply lN_eqb_spec. exact (proj2 H). Qed.
